@@ -34,7 +34,7 @@ ASSUMPTIONS = [
 ]
 RULE = (
     "per run one callable (a public scaled function, a unit-scaled module, or a chain of 2-6 functions; seeded mult / constraint / "
-    "dim / eps / causal / tau hyper-parameters given as floats or ints; one- and two-sided broadcasts in add; tensors incl. weights passed as arguments, "
+    "dim / eps / causal / tau hyper-parameters given as floats or ints; one- and two-sided broadcasts in add; softmax over -inf-masked scores; tensors incl. weights passed as arguments, "
     "sometimes the same tensor for two arguments) compiled under knobs (recompile_limit 1|2|8, "
     "automatic_dynamic_shapes on|off, dynamic None|False|True, fullgraph) and a history of 3-8 calls varying batch dims, feature "
     "dim, dtype float32|float64|bfloat16, requires_grad mask, grad mode, fwd|fwd+bwd, with dynamo.reset and failing-call faults; "
